@@ -81,13 +81,16 @@ FILES = {
                                                            'CompoundSelector::no_placeholder']),
     'formalargs.rs': dict(module='sass::formal_args::kani_verif', src='rsass/src/sass/formal_args.rs',
                           unit='U-formalargs', functions=['FormalArgs::eval (body, extracted range; sub-scope and default evaluation replaced by a recording binder)',
+                                                          'sass::CallArgs::evaluate (forwarded-arglist arm, extracted range)',
                                                           'css::CallArgs::take_positional', 'css::CallArgs::only_named', 'css::CallArgs::check_no_named',
                                                           'sass::Name (- / _ equivalence)']),
     'transformfns.rs': dict(module='output::transform::kani_verif', src='rsass/src/output/transform.rs',
-                            unit='U-controlflow', functions=['output::transform::handle_item (@if arm, @while arm; extracted ranges)']),
+                            unit='U-controlflow', functions=['output::transform::handle_item (@if arm, @while arm, comment arm; extracted ranges)']),
     'scopefns.rs': dict(module='variablescope::kani_verif', src='rsass/src/variablescope.rs',
                         unit='U-controlflow', functions=['Scope::define_multi (@each destructuring; extracted range)',
-                                                         'ScopeRef::eval_body (@if arm; extracted range)', 'css::Value::iter_items']),
+                                                         'ScopeRef::eval_body (@if arm; extracted range)',
+                                                         'ScopeRef::eval_body (@while arm; extracted range)',
+                                                         'Scope::set_variable (flag logic; extracted range)']),
     'comment.rs': dict(module='css::comment::kani_verif', src='rsass/src/css/comment.rs',
                        unit='U-comment', functions=['Comment::write']),
 }
@@ -102,7 +105,7 @@ BOUNDED_FILES = {
     'comment.rs': 'comment text of bounded length',
     'transformfns.rs': 'eight representative condition values; @while: at most 3 iterations',
     'scopefns.rs': 'at most three variables and two-element list values; six representative condition values',
-    'formalargs.rs': 'eight concrete call shapes (at most 2 parameters + rest, at most 3 arguments)',
+    'formalargs.rs': 'eleven concrete call shapes (at most 2 parameters + rest, at most 3 arguments)',
     'sel_compound.rs': 'concrete compound selectors with at most one placeholder / class / id',
     'sel_pseudo.rs': 'constructors only',
     'sel_selector.rs': 'concrete selector structures: lists of at most 3 complex selectors, one combinator, one pseudo-class with a selector argument',
@@ -125,12 +128,17 @@ OVERRIDES = [
     (r'^c01_get_indent_contract$', dict(bounded='len <= 160; modular in long_indent, whose contract is checked for four sampled lengths only')),
     (r'^c28_get_list_shape$', dict(bounded='lists of at most 2 elements', functions=['get_list'])),
     (r'^c28_index_of$', dict(functions=['index_of'])),
+    (r'^c16_(plain|global|default)_', dict(functions=['Scope::set_variable (flag logic after the module case; extracted range, scope state replaced by a probe)'],
+                                     bounded=None)),
     (r'^c26_(slice_(whole|first|negative|empty|zero|far)|insert_(at|after|past|zero|minus|far|into)|index_first|length_counts)', dict(bounded='the concrete string "äbc" (and four other literals), seven concrete index pairs / indices',
         functions=['string.slice / insert / index / length (complete closure bodies, extracted ranges)'])),
     (r'^c29_number_', dict(functions=['Number::ceil', 'Number::floor', 'Number::round', 'Number::abs', 'Number::trunc'])),
     (r'^c29_percentage', dict(bounded='four probe values')),
     (r'^c29_(ceil|floor|round)_keeps_unit', dict(bounded='three probe values (2.5, -2.5, 7); the primitives are complete in number.rs')),
+    (r'^c29_unitless_', dict(bounded='four concrete units (none, %, fr, px), one harness each', functions=['math::unitless (argument check of pow / sqrt / log / exp)'])),
     (r'^c29_min_max_', dict(bounded='three / two concrete arguments (90px, 1in, 95px; 2, 3; 1px, 1s)')),
+    (r'^c36_', dict(bounded=None, functions=['output::transform::handle_item (Item::Comment arm; extracted range)'])),
+    (r'^c16_assignment_updates', dict(functions=['Scope::set_variable (flag logic after the module case; extracted range)'], bounded=None)),
     (r'^c17_for_end_unit', dict(functions=['sass::SrcRange::evaluate (unit conversion of the end value, extracted range)'],
                                 bounded='seven concrete (value, unit, unit) triples')),
     (r'^c13_valuemap_', dict(functions=['OrderMap<css::Value, css::Value>::{get, contains_key, insert, remove} (the instantiation map.get/has-key/set/remove use)'],
@@ -165,6 +173,7 @@ OVERRIDES = [
     (r'^c14_and_or_arm_', dict(bounded='left operand one representative per value kind; right operand true / null / number',
                                functions=['Operator::eval (and / or arms, extracted ranges)'])),
     (r'^c12_operator_cmp', dict(bounded='unit px only', kind='attempt', tier='thorough', timeout=900)),
+    (r'^c29_unitless_rejects_', dict(kind='attempt', tier='thorough', timeout=2400)),  # measured: > 900 s (error path builds the message through core::fmt)
     (r'^c18_named_in_any_order$', dict(kind='attempt', tier='thorough', timeout=2400)),  # measured: runs out of memory (two removals from OrderMap<Name, _>)
     (r'^c11_unitset_scale_to_power_of_unit_is_none$', dict(kind='attempt', tier='thorough', timeout=2400)),  # measured: > 900 s (BTreeMap in UnitSet::dimension)
     (r'^c11_numeric_cmp_', dict(bounded='13 representative ordered unit pairs, probe magnitudes 1 and 3')),
@@ -215,7 +224,7 @@ FILE_ASSUMPTIONS = {
 
 _h_re = re.compile(r'^\s*fn\s+((?:c\d\d|cover|canary)_[A-Za-z0-9_]+)\s*\(\s*\)', re.M)
 _per_style_re = re.compile(r'^per_style!\((\w+),\s*(\w+),\s*(\w+),\s*(\w+)\);', re.M)
-_target_re = re.compile(r'^(?:target|left|pair|per_tag|per_kind|and_or|map_lit|arm_kind|index_case|if_case|fn_if_case|while_case|tail_case|slice_at|insert_at)!\((\w+),', re.M)
+_target_re = re.compile(r'^(?:target|left|pair|per_tag|per_kind|and_or|map_lit|arm_kind|index_case|if_case|fn_if_case|while_case|tail_case|slice_at|insert_at|flags_case|unitless_case)!\((\w+),', re.M)
 _shape_re = re.compile(r'^shape!\((\w+),\s*(\w+),', re.M)
 _pair2_re = re.compile(r'^(?:arm_)?pair!\((c11_\w+),\s*(c11_\w+),', re.M)
 _mac_re = re.compile(r'^(?:per_\w+|gen_\w+)!\(([^;]*)\);', re.M)
